@@ -28,9 +28,50 @@ CLAIMED = {
              "value are compared, not error classes or messages. Exhaustive inside the tables, sampled beyond depth 2.",
         technique="TLA+ specification of the evaluator; TLC-generated operator tables replayed into the Go evaluator; TLC trace "
                   "validation of recorded random evaluations"),
+    "C02": dict(
+        category="model_checking",
+        text="spec/Authz.tla defines the abstract result (Allow iff a satisfied permit and no satisfied forbid; reasons; errors) "
+             "and the authorizer loop as a state machine with one action per iteration and a free iteration order. TLC shows "
+             "(MC_Authz) that every order over every multiset of the six policy classes yields the abstract result and "
+             "terminates, and (MC_PolicyClauses) that clause-by-clause satisfaction equals the desugared conjunction. The "
+             "behaviours of MC_AuthzGen (concrete policies per class, iteration order taken, specified result) are replayed "
+             "into cedar.Authorize through a PolicySet, an order-fixing PolicyIterator and a parsed document whose reported "
+             "positions are compared with the layout; random policy sets recorded from the real authorizer are validated by "
+             "TLC (Trace_Authz).",
+        design_ref="DESIGN.md 4 C02",
+        note=TRUSTED + "Policy outcomes come from the TLA+ evaluator (C01). Error message text is not predicted. Exhaustive "
+             "for <= 4 (5 thorough) policies in M1 and <= 3 (4) in M2; sampled beyond.",
+        technique="TLA+ state machine of the authorizer loop model-checked for all iteration orders; TLC-generated behaviours "
+                  "replayed into cedar.Authorize; TLC trace validation of recorded authorizations"),
+    "C03": dict(
+        category="model_checking",
+        text="spec/HierarchySearch.tla transcribes the implementation's iterative ancestor search with its four pruning rules "
+             "(one action per loop iteration, parents pushed in any order) and TLC checks it against reflexive-transitive "
+             "reachability through present entities for every store over 3 (thorough: 4) nodes, every target set and every "
+             "push order, including termination. MC_HierarchyGen enumerates every such store with the specified answer of "
+             "every ordered pair, every target set, `is T in` and the three scope forms; the harness asks the real evaluator "
+             "and authorizer under a watchdog. Random graphs of 5-10 nodes are validated by TLC (Trace_Hier).",
+        design_ref="DESIGN.md 4 C03",
+        note=TRUSTED + "Exhaustive for N<=3 (quick) / N<=4 (thorough); sampled for 5-10 nodes. Non-termination is a 20 s watchdog.",
+        technique="TLA+ model of the hierarchy search model-checked against reachability; exhaustive TLC-generated stores "
+                  "replayed into the Go evaluator/authorizer; TLC trace validation of random graphs"),
+    "C04": dict(
+        category="model_checking",
+        text="spec/Fold.tla states the folding rules (fold iff all children are values and constant evaluation succeeds; "
+             "store-dependent operators never fold) and TLC checks FoldSound -- same value or same failure -- for every "
+             "expression of the bounded universe (every operator over constant / non-constant / erroring operands, every "
+             "parent-child-position triple in thorough) under up to 72 environments that differ in every entity-dependent "
+             "observation. Each policy is emitted with the outcome of its ORIGINAL tree; the harness compiles it with the real "
+             "cedar.NewPolicyFromAST (which folds), authorizes, evaluates the unfolded tree directly and compares AST, text and "
+             "JSON snapshots before/after. Random constant-heavy policies are validated by TLC (Trace_Fold).",
+        design_ref="DESIGN.md 4 C04",
+        note=TRUSTED + "Outcomes come from the TLA+ evaluator (C01). The universe is bounded (depth 2 exhaustive by operator "
+             "pairing, deeper sampled).",
+        technique="TLA+ fold rules checked for soundness by TLC; TLC-generated policies with specified outcomes replayed into "
+                  "the folding compiler and the unfolded evaluator; TLC trace validation"),
 }
 
-PENDING = "check under construction in this session (the specification modules it needs are being written; see DESIGN.md 10)"
+PENDING ="check under construction in this session (the specification modules it needs are being written; see DESIGN.md 10)"
 
 
 def main():
